@@ -38,8 +38,25 @@ class C09(Check):
     budgets = {"quick": {"n": 40, "wall": 170}, "thorough": {"n": 500, "wall": 1500}}
 
     def extra_batches(self, tier):
+        import random
+
+        fixed = []
+        # several dependency-adding codemods in one run (same package twice, package already declared, distinct packages)
+        names = {m["name"]: m for m in W.manifests()}
+        seqs = [["pixee:python/url-sandbox", "pixee:python/sandbox-process-creation", "pixee:python/harden-pickle-load"],
+                ["pixee:python/url-sandbox", "pixee:python/use-defusedxml"],
+                ["pixee:python/use-defusedxml", "pixee:python/flask-enable-csrf-protection", "pixee:python/url-sandbox"]]
+        for si, seq in enumerate(seqs):
+            for mn in ("req-plain", "pyproject-has-security", "setupcfg-multiline", "setuppy-multi"):
+                files = []
+                for ci, cid in enumerate(seq):
+                    rr = G.pick_snippet(random.Random(f"c09-seq-{si}-{ci}"), cid)
+                    files.append({"path": f"pkg/m{ci}.py", "snippets": [rr["idx"]], "layout": {}})
+                files.append({"path": names[mn]["file"], "manifest": names[mn]["idx"]})
+                fixed.append({"kind": "dep-sequence", "world_spec": {"files": files}, "include": seq, "plugins": False, "path_include": None,
+                              "extra_findings": {}, "sched": {"seed": si, "policy": "fifo", "line_p": 0.0}, "workers": None, "enum_seed": None})
         if tier != "thorough":
-            return []
+            return fixed
         # the whole default set on a world holding one snippet file per codemod
         import random
 
@@ -52,8 +69,8 @@ class C09(Check):
             if r is not None:
                 files.append({"path": G.rand_path(rng, used, ["pkg", "app", "src/lib", ""]), "snippets": [r["idx"]], "layout": {}})
         files += [{"path": "requirements.txt", "manifest": 0}]
-        return [{"kind": "default-set", "world_spec": {"files": files}, "include": ids, "plugins": False, "path_include": None,
-                 "extra_findings": {}, "sched": {"seed": 1, "policy": "fifo", "line_p": 0.0}, "workers": 4, "enum_seed": None}]
+        return fixed + [{"kind": "default-set", "world_spec": {"files": files}, "include": ids, "plugins": False, "path_include": None,
+                         "extra_findings": {}, "sched": {"seed": 1, "policy": "fifo", "line_p": 0.0}, "workers": 4, "enum_seed": None}]
 
     def gen(self, rng, i, tier):
         r = rng.random()
